@@ -144,7 +144,7 @@ fn eval_case(c: &Case) -> Verdict {
         viol = Some(format!("C04:fails-without-error:{k}:{l}"));
     } else if ms >= allowed(c.src.len() + c.maps.iter().map(|m| m.len()).sum::<usize>()).as_millis() as u64 {
         class = "slow".into();
-        viol = Some(format!("C04:timeout:{}{}", sigkey_prefix(c), k));
+        viol = if c.info_only { None } else { Some(format!("C04:timeout:{}{}", sigkey_prefix(c), k)) };
     } else if ok {
         class = if out.diag.lines().any(|l| l.starts_with("warning")) {
             format!("ok+{}", normalise(out.diag.lines().find(|l| l.starts_with("warning")).unwrap(), 60))
@@ -229,7 +229,7 @@ fn worker_loop(thorough: bool) {
         let mut hwm = vm_hwm_kb();
         for k in from..until {
             let c = &cases[k];
-            let _ = writeln!(o, "S {k} {}", c.src.len() + c.maps.iter().map(|m| m.len()).sum::<usize>()); let _ = o.flush();
+            let _ = writeln!(o, "S {k} {} {}", c.src.len() + c.maps.iter().map(|m| m.len()).sum::<usize>(), c.info_only as u8); let _ = o.flush();
             let v = eval_case(c);
             if v.ms > max_ms.0 { max_ms = (v.ms, k); }
             if v.ms >= 1000 { slow.push(json!({"index": k, "ms": v.ms, "desc": c.desc, "bytes": c.src.len()})); }
@@ -237,7 +237,7 @@ fn worker_loop(thorough: bool) {
             rows.push(json!([format!("{:016x}", c.hash64()), ix]));
             let mut viol = v.viol.clone();
             let now = vm_hwm_kb();
-            if now > hwm + (1 << 20) && c.src.len() < (1 << 20) && viol.is_none() {
+            if now > hwm + (1 << 20) && c.src.len() < (1 << 20) && viol.is_none() && !c.info_only {
                 viol = Some(format!("C04:memory-exhaustion:{}{}", sigkey_prefix(c), kind_name(c.tool.kind)));
             }
             hwm = hwm.max(now);
@@ -334,6 +334,8 @@ fn attempt(slot: &mut Option<Worker>, tier: &str, req: &Value) -> Attempt {
                         let mut it = k.split_whitespace();
                         cur = it.next().and_then(|x| x.parse().ok());
                         wait = allowed(it.next().and_then(|x| x.parse().ok()).unwrap_or(0));
+                        // beyond the property's bound nothing is decided by the outcome: do not wait long for it
+                        if it.next() == Some("1") { wait = wait.min(Duration::from_secs(30)); }
                     }
                     else if let Some(r) = l.strip_prefix("R ") {
                         match serde_json::from_str::<Value>(r) { Ok(v) => return Attempt::Done(v), Err(e) => { let how = format!("unparsable worker result: {e}"); slot.take().map(|w| w.kill()); return Attempt::Died { at: None, how, timeout: false } } }
@@ -398,7 +400,11 @@ fn run_item(slot: &mut Option<Worker>, tier: &str, item: &str, want_diag: bool) 
                 // confirm in a fresh worker
                 slot.take().map(|w| w.kill());
                 match attempt(slot, tier, &json!({"item": item, "from": k, "until": k + 1, "diag": want_diag})) {
-                    Attempt::Done(v) => { acc.machinery.push(format!("{item}: case {k} killed a worker once ({how}) but not on re-run")); acc.merge(&v); },
+                    Attempt::Done(v) => {
+                        let info = gen_cases(item, tier == "thorough").get(k).map_or(false, |c| c.info_only);
+                        if !info { acc.machinery.push(format!("{item}: case {k} killed a worker once ({how}) but not on re-run")); }
+                        acc.merge(&v);
+                    },
                     Attempt::Died { how: how2, timeout: t2, .. } => { acc.deaths.push((k, format!("{how} // again: {how2}"), timeout || t2)); },
                 }
                 if k > start {
@@ -1163,12 +1169,12 @@ fn gen_cases(item: &str, thorough: bool) -> Vec<Case> {
         "late" => late_cases(parts[1], parts[2]),
         _ => panic!("unknown item {item}"),
     };
-    // MSG / ending / EoSD ANM store the opcode in one byte: the test instructions 2000..2005 become 200..205 there
+    // MSG / ending / EoSD ANM store the opcode in one signed byte: the test instructions 2000..2005 become 100..105 there
     let small_ops = parts.iter().any(|p| ["anm06", "msg12", "msg06", "end10"].contains(p));
     for (i, c) in cases.iter_mut().enumerate() {
         if small_ops && parts[0] != "seed" && parts[0] != "tok" && parts[0] != "byte" {
-            if let Ok(s) = std::str::from_utf8(&c.src) { c.src = s.replace("ins_200", "ins_20").into_bytes(); }
-            for m in &mut c.maps { *m = m.replace("\n200", "\n20"); }
+            if let Ok(s) = std::str::from_utf8(&c.src) { c.src = s.replace("ins_200", "ins_10").into_bytes(); }
+            for m in &mut c.maps { *m = m.replace("\n200", "\n10"); }
         }
         if i == 0 && (item.starts_with("map:del:") || (parts[0] == "late" && parts[2] == "alone") || (parts[0] == "lit" && parts[1] != "mission095" && parts[2] == "0") || item.starts_with("nest:paren:")) { c.must_ok = true; }
         c.sigkey = match parts[0] { "nest" => format!("nest-{}", parts[1]), "lit" | "map" | "late" => desc_key(&c.desc), f => f.to_string() };
